@@ -47,7 +47,9 @@ def make_filter(rng, which=None, measure=None):
         tcls, t = gens.any_threshold_value(rng)
     cls = {'size': ssj.SizeFilter, 'prefix': ssj.PrefixFilter, 'position': ssj.PositionFilter,
            'suffix': ssj.SuffixFilter}[which]
-    f = cls(tok, m, t, allow_empty, allow_missing)
+    # the library upper-cases the measure name: any spelling must behave like the canonical one
+    m_spelled = m if rng.random() < 0.8 else rng.choice([m.lower(), m.capitalize(), m[0].lower() + m[1:]])
+    f = cls(tok, m_spelled, t, allow_empty, allow_missing)
     return dict(which=which, measure=m, t=t, tcls=tcls, op='>=', tok=tok, kind=kind, filt=f,
                 allow_empty=allow_empty, allow_missing=allow_missing, q=getattr(tok, 'qval', 0))
 
@@ -251,7 +253,9 @@ def empty_tables_call(rng, which=None):
         call['allow_empty'] = rng.random() < 0.8
         cls = {'size': ssj.SizeFilter, 'prefix': ssj.PrefixFilter, 'position': ssj.PositionFilter,
                'suffix': ssj.SuffixFilter}[call['which']]
-        call['filt'] = cls(call['tok'], call['measure'], call['t'], call['allow_empty'], call['allow_missing'])
+        m_ = call['measure']
+        m_spelled = m_ if rng.random() < 0.6 else rng.choice([m_.lower(), m_.capitalize(), m_[0].lower() + m_[1:]])
+        call['filt'] = cls(call['tok'], m_spelled, call['t'], call['allow_empty'], call['allow_missing'])
     kind = call['kind']
     blanks = {'ws': ['', ' ', '   '], 'delim': ['', ',', ',,'], 'alnum': ['', ' ,; ', '--'], 'qgram2np': ['', 'x', 'y'],
               'qgram3': [''], 'qgram2': ['']}.get(kind, [''])
